@@ -1,4 +1,5 @@
 import PcfgVerif.Properties.LoaderCore
+import PcfgVerif.Generated.WriterLoops
 import PcfgVerif.Lemmas.TrainedFolder
 import PcfgVerif.Lemmas.LoaderWF
 import PcfgVerif.Properties.ProbsCore
@@ -249,6 +250,17 @@ theorem C07_omen_level_out_of_range (maxLevel : Nat) (l : Nat) (k : Omen.Str) (h
     Omen.loadIp maxLevel [(l, k)] = none ∧ Omen.loadCp maxLevel [(l, k)] = none ∧ Omen.loadLn maxLevel 2 [l] = none := by
   have : ¬ l ≤ maxLevel := by omega
   simp [Omen.loadIp, Omen.loadIpGo, Omen.loadCp, Omen.loadCpGo, Omen.loadLn, Omen.loadLnGo, this]
+
+/-- the record order the file model assumes is the one of the source (regenerated): `IP.level`, `EP.level` and `CP.level` are written by
+loops over `omen_trainer.grammar.items()` (for `CP.level` with an inner loop over `data['next_letter'].items()`), `LN.level` over
+`enumerate(omen_trainer.ln_lookup)`, and each of these loops writes one record per iteration - none leaves a record out -/
+theorem C07_omen_writer_loops :
+    Generated.WriterLoops.omenLoops.take 5 =
+      [("IP.level", "omen_trainer.grammar.items()"), ("EP.level", "omen_trainer.grammar.items()"),
+       ("CP.level", "omen_trainer.grammar.items()"), ("CP.level", "data['next_letter'].items()"),
+       ("LN.level", "enumerate(omen_trainer.ln_lookup)")] ∧
+    Generated.WriterLoops.omenLoopBodies.all (·.2 == "every-record") = true := by
+  decide
 
 /-- **the text layer of an OMEN level file.**  `omenFileText` is what the trainer writes for `IP.level` / `EP.level` / `CP.level`
 (`str(level) + TAB + ngram + LF` per record), `loadOmenText` the front of `_load_ngrams` and of the scorer's `_load_omen` (codec
